@@ -16,7 +16,7 @@ method is fork, so the plan travels to the child by inheritance; nothing in
 
 `stage` is anything with attributes `worker = (module, attr)` and
 `mid = (module, attr, 'before'|'after')` (see stagefix.py); `point` is
-'before' | 'mid' | 'after'; `mode` is 'raise' | 'exit' | 'kill'.
+'before' | 'mid' | 'after'; `mode` is 'raise' | 'exit' | 'kill' | 'term'.
 
 `faults.watchdog(seconds)` bounds a stage call; `faults.reap()` collects the
 orphans a failed stage leaves running.
@@ -33,8 +33,8 @@ import tempfile
 import time
 
 POINTS = ('before', 'mid', 'after')
-MODES = ('raise', 'exit', 'kill')
-EXPECTED_EXIT = {'raise': 1, 'exit': 3, 'kill': -9}
+MODES = ('raise', 'exit', 'kill', 'term')
+EXPECTED_EXIT = {'raise': 1, 'exit': 3, 'kill': -9, 'term': -15}
 
 
 class InjectedFault(RuntimeError):
@@ -85,6 +85,12 @@ def _die(mode, rec):
         os._exit(3)
     if mode == 'kill':
         os.kill(os.getpid(), signal.SIGKILL)
+        time.sleep(60)
+    if mode == 'term':
+        # death by SIGTERM (what `kill <pid>`, a batch scheduler or
+        # Process.terminate() send); if the worker inherited a handler that
+        # turns it into a clean exit, that is what happens here
+        os.kill(os.getpid(), signal.SIGTERM)
         time.sleep(60)
     raise ValueError(mode)
 
